@@ -80,6 +80,10 @@ func body(c *kernel.Ctx) {
 
 	// ---- duty type and timer configuration (0 = attester duty through the scheduler stub, default feature set)
 	dutyType := []core.DutyType{core.DutyAttester, core.DutyProposer, core.DutyAggregator, core.DutySyncContribution}[verifrt.Intn("cfg", 4)]
+	// size of the proposed sets (aggregator and sync contribution duties): one entry, a few, tens, or hundreds of
+	// entries (a cluster with hundreds of validators: sets of 100 kB and more with hundreds of map entries)
+	entries := []int{1, 1, 3, 40, 400, 900}[verifrt.Intn("cfg", 6)]
+	c.Set("set_entries", entries)
 	feat := defaultFeatures
 	switch verifrt.Intn("cfg", 4) {
 	case 1: // increasing timer for every duty
@@ -266,6 +270,9 @@ func body(c *kernel.Ctx) {
 			// (a no-op for aggregator and sync contribution duties, or when consensus_participate is off)
 			// and Propose when it has its data, or Propose alone. Propose comes at the member's start time.
 			set := unsignedSet(cl, duty, i%2)
+			if entries > 1 && (dutyType == core.DutyAggregator || dutyType == core.DutySyncContribution) {
+				set = inflate(cl, duty, i%2, set, entries)
+			}
 			gap := time.Duration(-1)
 			if verifrt.Intn("w", 3) != 0 {
 				gap = time.Duration(verifrt.Intn("w", 120)) * time.Millisecond
